@@ -19,7 +19,9 @@ Record l2case := mkCase {
   lc_cfg : config;
   lc_args : list string;
   lc_obs : observed;
-  lc_proj : string }.      (* the structure of the real output, as extracted by `vh facts` *)
+  lc_proj : string;        (* the structure of the real output, as extracted by `vh facts` *)
+  lc_mid : nat }.          (* how many import specs precede a generated file that sorts after
+                              the first source file (regeneration, C15) *)
 
 (* ---- the structural projection of the model's output ----
    Everything the generator decides (package clause, import block, mock names, type
@@ -105,23 +107,28 @@ Definition model_proj (c : l2case) : string :=
 (* ---- regeneration (C15): the model's own prediction of what a second run over the first
    run's output yields.  The generated file contributes its import specs to the alias map
    of the next run, before or after the source files' specs depending on its file name. ---- *)
-Definition with_generated (i : input) (d : data) (first : bool) : input :=
+Definition with_generated_at (i : input) (d : data) (k : nat) : input :=
   let specs := map (fun im => (i_path im, i_alias im)) (d_imports d) in
-  mkInput (in_src i) (if first then specs ++ in_specs i else in_specs i ++ specs)%list
+  mkInput (in_src i) (firstn k (in_specs i) ++ specs ++ skipn k (in_specs i))%list
           (in_dir_oracle i) (in_lookup i).
-Definition regen_stable (c : l2case) (first : bool) : bool :=
+Definition with_generated (i : input) (d : data) (first : bool) : input :=
+  with_generated_at i d (if first then 0 else List.length (in_specs i)).
+Definition regen_stable_at (c : l2case) (k : nat) : bool :=
   match mock_run (lc_input c) (lc_cfg c) (lc_args c) with
   | Ok d =>
-    match mock_run (with_generated (lc_input c) d first) (lc_cfg c) (lc_args c) with
+    match mock_run (with_generated_at (lc_input c) d k) (lc_cfg c) (lc_args c) with
     | Ok d' => String.eqb (proj_data d) (proj_data d')
     | _ => false
     end
   | _ => true
   end.
+Definition regen_stable (c : l2case) (first : bool) : bool :=
+  regen_stable_at c (if first then 0 else List.length (in_specs (lc_input c))).
 
 Definition verdicts (cs : list l2case) : list (string * string) :=
   map (fun c => let v := verdict c in
                 (lc_id c, v ++ "|" ++ join "," (families c ++
                                 (if regen_stable c false then [] else ["regen_unstable_last"]) ++
-                                (if regen_stable c true then [] else ["regen_unstable_first"]))%list ++
+                                (if regen_stable c true then [] else ["regen_unstable_first"]) ++
+                                (if regen_stable_at c (lc_mid c) then [] else ["regen_unstable_mid"]))%list ++
                           (if String.eqb v "DIFF-structure" then "|" ++ model_proj c else ""))) cs.
